@@ -122,7 +122,9 @@ def sw_block(stmts, ind, tail_return=False):
         elif k == 'break': out.append(pad + 'break;')
         elif k == 'continue': out.append(pad + 'continue;')
         elif k == 'return':
-            if tail_return and j == len(stmts) - 1: out.append('%s%s' % (pad, sw_expr(s[1])))
+            tx = sw_expr(s[1])
+            # `if c { } [x]` / `if c { } (x, y)` would parse as indexing / a call of the block before
+            if tail_return and j == len(stmts) - 1 and tx[0] not in '[(': out.append('%s%s' % (pad, tx))
             else: out.append('%sreturn %s;' % (pad, sw_expr(s[1])))
         elif k == 'assert': out.append('%sassert(%s);' % (pad, sw_expr(s[1])))
         elif k == 'require': out.append('%srequire(%s, %s);' % (pad, sw_expr(s[1]), sw_expr(s[3])))
